@@ -24,7 +24,7 @@ ASSUMPTIONS = [
     "backend calls are compared after sorting nothing: the engine applies commands in program order",
 ]
 REQUIRED_MONITORS = ["stream:gaussian", "stream:bosonic", "stream:fock", "observables:gaussian", "observables:bosonic",
-                     "observables:fock"]
+                     "observables:fock", "deferred-query:gaussian", "deferred-query:bosonic", "deferred-query:fock"]
 
 HBARS = [0.3, 0.5, 1.0, 1.7, 2.0, 4.0]
 API = ["prepare_vacuum_state", "prepare_coherent_state", "prepare_squeezed_state", "prepare_displaced_squeezed_state",
@@ -188,6 +188,12 @@ def scaled_spec(spec, hbar):
 
 def observables(env, eng, backend, n):
     st = eng.backend.state()
+    o = observables_of(st, backend, n)
+    o["_state"] = st
+    return o
+
+
+def observables_of(st, backend, n):
     o = {}
     o["means"] = np.asarray(st.means()) if backend == "gaussian" else None
     o["cov"] = np.asarray(st.cov()) if backend == "gaussian" else None
@@ -215,6 +221,21 @@ def observables(env, eng, backend, n):
         o["squeezing"] = np.asarray(st.squeezing(), dtype=complex)
         o["displacement"] = np.asarray(st.displacement(), dtype=complex)
         o["reduced_dm"] = np.asarray(st.reduced_dm([0], cutoff=5))
+    if backend in ("gaussian", "fock"):
+        # polynomial quadrature observables and the Wigner function, in coordinates scaled with the state's own convention
+        h = st.hbar
+        A = np.array([[0.3 if i == j else 0.1 / (1 + abs(i - j)) for j in range(2 * n)] for i in range(2 * n)])
+        dvec = np.array([0.2 - 0.05 * i for i in range(2 * n)])
+        try:
+            o["poly_quad_A"] = np.asarray(st.poly_quad_expectation(A), dtype=complex) / np.array([h, h * h])
+            # (no constant term: on a truncated Fock state it contributes k * trace, a truncation effect and not a scaling one)
+            o["poly_quad_d"] = np.asarray(st.poly_quad_expectation(np.zeros((2 * n, 2 * n)), dvec, 0.0), dtype=complex)
+            o["poly_quad_d"] = o["poly_quad_d"] / np.array([np.sqrt(h), h])
+        except NotImplementedError:
+            pass
+        xv = np.array([-1.1, -0.3, 0.0, 0.6, 1.4]) * np.sqrt(h / 2)
+        o["wigner"] = np.asarray(st.wigner(n - 1, xv, xv), dtype=complex) * (h / 2)
+    if backend == "gaussian":
         # the queries above must not have changed the state object
         o["means_after"] = np.asarray(st.means())
         o["cov_after"] = np.asarray(st.cov())
@@ -246,6 +267,26 @@ def run_case(case, rep, env):
     finally:
         sf.hbar = 2
     (e1, c1, o1), (e2, c2, o2) = runs
+    # ---- a state object keeps the convention it was generated with: asking it again after the global convention has
+    # been changed (to the other run's value) must give the same answers
+    if e1 is None and e2 is None:
+        try:
+            for (o, h_own, h_now) in ((o1, h1, h2), (o2, h2, h1)):
+                st = o.pop("_state")
+                sf.hbar = h_now
+                rep.monitor("deferred-query:" + backend)
+                again = observables_of(st, backend, spec["n"])
+                for key, val in o.items():
+                    if val is None or key.endswith("_after"):
+                        continue
+                    a, b = np.asarray(val, dtype=complex), np.asarray(again[key], dtype=complex)
+                    d = float(np.max(np.abs(a - b))) if a.size else 0.0
+                    if a.shape != b.shape or d > 1e-10 * (1 + float(np.max(np.abs(a))) if a.size else 1):
+                        V(backend + ".state." + key, "depends-on-current-global-hbar", "a state generated at hbar=%s answers %s differently "
+                          "once the global convention has been set to %s (max change %.3e)" % (h_own, key, h_now, d))
+                        return
+        finally:
+            sf.hbar = 2
     if e1 is not None or e2 is not None:
         if type(e1) != type(e2):
             V(backend + ".run", "raises-at-one-hbar", "hbar=%s: %r, hbar=%s: %r" % (h1, e1, h2, e2))
@@ -297,7 +338,7 @@ def run_case(case, rep, env):
         if "fock_prob" in o1:
             cmp("fock_prob", o1["fock_prob"], o2["fock_prob"], 1.0)
             cmp("fidelity_vacuum", o1["fidelity_vacuum"], o2["fidelity_vacuum"], 1.0)
-        for key in ("parity", "number", "fidelity_coherent", "squeezing", "displacement", "reduced_dm"):
+        for key in ("parity", "number", "fidelity_coherent", "squeezing", "displacement", "reduced_dm", "poly_quad_A", "poly_quad_d", "wigner"):
             if o1.get(key) is not None:
                 cmp(key, np.asarray(o1[key], dtype=complex), np.asarray(o2[key], dtype=complex), 1.0)
         for key in ("is_coherent", "is_squeezed"):
